@@ -11,6 +11,7 @@ from the current source (`Generated/Mcu.lean`).  Theorems named `…_code` are a
 `codeCfg` and only compile while the source has the shape the model stands for.
 -/
 import SigModel.Lemmas.Mcu
+import SigModel.Lemmas.McuExits
 
 namespace SigModel.Mcu
 open SigModel.Generated.Mcu
@@ -49,6 +50,19 @@ theorem C09_code_janus_cleanup :
 /-- An old-style session (no permissions from the backend yet) may publish everything. -/
 theorem C09_code_oldstyle : Perms.oldStyle = { media := true, audio := true, video := true, screen := true } := by
   decide
+
+/-- Every statement of the package that takes sessions out of a room's in-call set is
+followed by `LeaveCall()` for each client session it removes — in particular the
+reset of the whole set in `PublishUsersInCallChangedAll` ("the call ended for
+everybody") feeds *every member of the set* to `LeaveCall()`, whatever its client
+type; the functions that end a room stay or a session (bye, expiry, anonymous
+timeout, room deleted, room-session reconnect, `CloseAfterSend`, asynchronous
+bye) call `LeaveRoom` / `Close` on it; the room pointer is only cleared and the
+context only cancelled by functions that release the media objects. -/
+theorem C09_code_exits :
+    codeCfg.inCallExits = true ∧ codeCfg.hubExits = true ∧
+    inCallRemovals = expectedInCallRemovals ∧ exitCalls = expectedExitCalls ∧
+    (∀ f ∈ roomClearSites, f ∈ releasers) ∧ (∀ f ∈ cancelSites, f ∈ releasers) := by decide
 
 /-! ## 1. The invariant holds in every reachable state -/
 
@@ -247,6 +261,7 @@ theorem C09_epoch_monotone (cfg : Cfg) (st : State) (a : Action) (i : Nat) :
   cases a with
   | join s r => simp only [step]; exact Nat.le_of_eq (hupd st s _ rfl).symm
   | inCallSet s b => simp only [step]; exact Nat.le_of_eq (hupd st s _ rfl).symm
+  | setMeta s m => simp only [step]; exact Nat.le_of_eq (hupd st s _ rfl).symm
   | leaveCall s => simp only [step]; split; exact Nat.le_refl _; exact hrel st s
   | leaveRoom s => exact hleave st s
   | closeCancel s => simp only [step]; exact Nat.le_of_eq (hupd st s _ rfl).symm
@@ -344,6 +359,156 @@ theorem C09_exec_reachable (cfg : Cfg) (st : State) (hr : Reachable cfg st) (op 
   unfold exec drain
   exact reachable_run (reachable_run hr _) _
 
+/-! ## 5b. Every way out releases
+
+The harness ops are the events that make a session stop being in the call, in its
+room, alive: its own leave / room switch, the backend's `incall` for one session
+or for everybody, the internal client's own `incall` message, the room being
+deleted, a disinvite reaching its connection, a reconnect with its room session id
+(local and asynchronous), `bye`, the expiry after a lost connection, `Close()`. -/
+
+theorem drain_neutral (st : State) : ∀ a ∈ st.closing.map Action.doClose, subject a = none := by
+  intro a ha
+  obtain ⟨k, _, rfl⟩ := List.mem_map.mp ha
+  rfl
+
+theorem core_exec (cfg : Cfg) (st : State) (op : Op) (s : Nat) :
+    core ((exec cfg st op).1.sess s) = coreRun s (core (st.sess s)) (opActions cfg st op) := by
+  unfold exec drain
+  simp only []
+  rw [core_run, core_run]
+  -- the closing goroutines touch no session
+  exact coreRun_neutral s _ (drain_neutral _) _
+
+/-- **C09_leaving_releases**: for every harness op, from every state, for every session:
+the generation never goes back, and if the op made the session stop being in the
+call of its room, leave or change its room, or be closed, then its generation
+moved, i.e. `releaseMcuObjects` ran for it inside the op (`C09_release_bumps`,
+`C09_close_bumps`: nothing else moves the generation) — provided every removal from
+the in-call set is followed by `LeaveCall()` (`C09_code_exits` for the source as it is). -/
+theorem C09_leaving_releases (cfg : Cfg) (hc : cfg.inCallExits = true) (st : State) (op : Op) (s : Nat) :
+    let x := st.sess s
+    let x' := (exec cfg st op).1.sess s
+    x.epoch ≤ x'.epoch ∧
+    (x.room.isSome → x.inCall = true → x'.inCall = false → x.epoch < x'.epoch) ∧
+    (x.room.isSome → x'.room ≠ x.room → x.epoch < x'.epoch) ∧
+    (x.closed = false → x'.closed = true → x.epoch < x'.epoch) := by
+  have hg : Good (core (st.sess s)) (core ((exec cfg st op).1.sess s)) := by
+    rw [core_exec]
+    exact goodBlocks_flatten _ (goodBlocks_op cfg hc st op) s _
+  exact ⟨hg.mono, hg.call, hg.room, hg.close⟩
+
+theorem C09_leaving_releases_code (st : State) (op : Op) (s : Nat) :
+    let x := st.sess s
+    let x' := (exec codeCfg st op).1.sess s
+    x.epoch ≤ x'.epoch ∧
+    (x.room.isSome → x.inCall = true → x'.inCall = false → x.epoch < x'.epoch) ∧
+    (x.room.isSome → x'.room ≠ x.room → x.epoch < x'.epoch) ∧
+    (x.closed = false → x'.closed = true → x.epoch < x'.epoch) :=
+  C09_leaving_releases codeCfg C09_code_exits.1 st op s
+
+/-- Hence, for the code as it is: once everything has settled after an op that took
+session `s` out of its call, out of its room or out of life, every object of `s` that
+is still open was requested after that — whatever `s` owned or was having created
+before has been closed. -/
+theorem C09_exit_closes (st : State) (hr : Reachable codeCfg st) (op : Op) (s : Nat)
+    (hq : Quiescent (exec codeCfg st op).1)
+    (hexit : let x := st.sess s
+             let x' := (exec codeCfg st op).1.sess s
+             (x.room.isSome ∧ x.inCall = true ∧ x'.inCall = false) ∨ (x.room.isSome ∧ x'.room ≠ x.room) ∨
+             (x.closed = false ∧ x'.closed = true)) :
+    ∀ o ∈ (exec codeCfg st op).1.objs, o.isOpen = true → o.owner = s → (st.sess s).epoch < o.stamp := by
+  intro o hmem hopen howner
+  have hst := (C09_no_orphan_code _ (C09_exec_reachable codeCfg st hr op) hq o hmem hopen).2.1
+  have h := C09_leaving_releases_code st op s
+  simp only [] at h hexit
+  rw [hst, howner]
+  rcases hexit with ⟨h1, h2, h3⟩ | ⟨h1, h2⟩ | ⟨h1, h2⟩
+  · exact h.2.1 h1 h2 h3
+  · exact h.2.2.1 h1 h2
+  · exact h.2.2.2 h1 h2
+
+/-- The ops that end a session do end it (as long as the functions behind them call
+`Close` / `LeaveRoom`, `C09_code_exits`): `bye` and a disinvite on a connection, a
+reconnect with the room session id, `Close()` itself, the expiry of a session whose
+connection was lost — the session is closed afterwards; a deleted room has no
+session left in it. -/
+theorem C09_exit_ops_end (cfg : Cfg) (hh : cfg.hubExits = true) (st : State) (s : Nat) :
+    ((exec cfg st (.close s)).1.sess s).closed = true ∧
+    ((exec cfg st (.asyncBye s)).1.sess s).closed = true ∧
+    ((st.sess s).room.isSome → (st.sess s).closed = false → ((exec cfg st (.kick s)).1.sess s).closed = true) ∧
+    ((st.sess s).info.connected = true → ((exec cfg st (.bye s)).1.sess s).closed = true) ∧
+    (∀ r, (st.sess s).info.connected = true → (st.sess s).room = some r →
+      ((exec cfg st (.disinvite s r)).1.sess s).closed = true) ∧
+    (∀ all, s ∈ all → (st.sess s).info.expiring = true → ((exec cfg st (.expire all)).1.sess s).closed = true) ∧
+    (∀ all r, s ∈ all → (st.sess s).room = some r → ((exec cfg st (.delRoom r all)).1.sess s).room = none) := by
+  have hclosed : ∀ op, Action.closeCancel s ∈ opActions cfg st op → ((exec cfg st op).1.sess s).closed = true := by
+    intro op hmem
+    have := core_exec cfg st op s
+    have h2 := coreRun_closed s (opActions cfg st op) (core (st.sess s)) hmem
+    rw [← this] at h2
+    exact h2
+  refine ⟨?_, ?_, ?_, ?_, ?_, ?_, ?_⟩
+  · exact hclosed _ (by simp [opActions, opBlocks, closeActs])
+  · exact hclosed _ (by simp [opActions, opBlocks, closeActs, hh])
+  · intro hr hcl; exact hclosed _ (by simp [opActions, opBlocks, closeActs, hh, hr, hcl])
+  · intro hcn; exact hclosed _ (by simp [opActions, opBlocks, closeActs, hh, hcn])
+  · intro r hcn hr; exact hclosed _ (by simp [opActions, opBlocks, closeActs, hh, hcn, hr])
+  · intro all hmem hexp
+    apply hclosed
+    simp only [opActions, opBlocks, hh, if_true, List.mem_flatten, List.mem_map, List.mem_filter]
+    exact ⟨closeActs st s, ⟨s, ⟨hmem, by simpa using hexp⟩, rfl⟩, closeCancel_mem_closeActs st s⟩
+  · intro all r hmem hr
+    have := core_exec cfg st (.delRoom r all) s
+    have h2 := coreRun_left s (opActions cfg st (.delRoom r all)) (core (st.sess s))
+      (by
+        intro a ha
+        simp only [opActions, opBlocks, hh, if_true, List.mem_flatten, List.mem_map] at ha
+        obtain ⟨b, ⟨x, _, rfl⟩, hab⟩ := ha
+        simp at hab; subst hab; rfl)
+      (by
+        simp only [opActions, opBlocks, hh, if_true, List.mem_flatten, List.mem_map, roomMembers, List.mem_filter]
+        exact ⟨[.leaveRoom s], ⟨s, ⟨hmem, by simp [hr]⟩, rfl⟩, by simp⟩)
+    rw [← this] at h2
+    exact h2
+
+/-- Running ops one after the other. -/
+def execs (cfg : Cfg) (st : State) (ops : List Op) : State := ops.foldl (fun st op => (exec cfg st op).1) st
+
+private def featInternal : Meta := { ctype := .internal, feature := true, flags := 0 }
+
+/-- An internal client (feature `internal-incall`) that put itself into the call with its
+own `incall` message, published, and then the backend ends the call for everybody. -/
+def incallAllWitness : List Op :=
+  [.world [featInternal, {}, {}], .join 0 1, .intIncall 0 3, .offer 0 (some .video) { audio := true, video := true },
+   .finish 1 .ok, .incallAll 1 false [0, 1, 2]]
+
+/-- **If the "call ended for everybody" branch did not call `LeaveCall()` for every
+member of the in-call set, the property would be false**: the session is out of the
+call, nothing is in flight, and its publisher is open and still owned, with the
+generation it was created under. -/
+theorem C09_incall_all_without_leave_orphan :
+    let cfg : Cfg := { recheckPub := true, recheckSub := true, sweepEarly := false, inCallExits := false }
+    let st := execs cfg State.init incallAllWitness
+    (st.sess 0).room = some 1 ∧ (st.sess 0).inCall = false ∧ st.pend = [] ∧ st.closing = [] ∧
+    ∃ o ∈ st.objs, o.isOpen = true ∧ o.owner = 0 ∧ o.stamp = (st.sess 0).epoch := by
+  decide
+
+/-- The hypotheses of `C09_exit_closes` are satisfiable: the state before the last op
+of the witness is reachable, the op takes session 0 out of the call, and the state
+after it is quiescent. -/
+example :
+    let st := execs codeCfg State.init incallAllWitness.dropLast
+    let st' := (exec codeCfg st (.incallAll 1 false [0, 1, 2])).1
+    (st.sess 0).room.isSome ∧ (st.sess 0).inCall = true ∧ (st'.sess 0).inCall = false ∧
+    st'.pend = [] ∧ st'.closing = [] ∧ (st.objs.filter (·.isOpen)).length = 1 := by decide
+
+/-- The same ops with the code as it is: the publisher is closed. -/
+theorem C09_incall_all_code_closes :
+    let st := execs codeCfg State.init incallAllWitness
+    (st.sess 0).inCall = false ∧ st.pend = [] ∧ st.closing = [] ∧ ∀ o ∈ st.objs, o.isOpen = false := by
+  decide
+
 /-! ## 6. Counter-examples: what the unrepaired behaviour allows -/
 
 private def av : Media := { audio := true, video := true }
@@ -386,36 +551,38 @@ def earlySweepWitness : List Action :=
 /-- **With the early return in the revocation goroutine the permission clause is
 false** (C08's finding seen from C09): the state is quiescent, the screen publisher
 is open and tracked, and its owner has no `publish-screen` permission. -/
-theorem C09_early_sweep_orphan :
-    let cfg : Cfg := { recheckPub := true, recheckSub := true, sweepEarly := true }
+theorem C09_early_sweep_orphan (x y : Bool) :
+    let cfg : Cfg := { recheckPub := true, recheckSub := true, sweepEarly := true, inCallExits := x, hubExits := y }
     let st := run cfg State.init earlySweepWitness
     Quiescent st ∧ ∃ o ∈ st.objs, o.isOpen = true ∧ o.kind = .pub .screen ∧
       permitted (st.sess o.owner).perms o.kind o.media = false := by
-  refine ⟨⟨by decide, by decide, ?_⟩, ?_⟩
-  · intro i
-    by_cases h : i = 0
-    · subst h; decide
-    · simp [run, earlySweepWitness, step, State.upd, beginCreate, createEndOk, findPend, recheckOk, sweepBody,
-        videoToClose, dropEntry, State.init, Sess.init, h, permittedPub, C09_code_oldstyle, av, objMedia, findObj]
-  · exact ⟨{ id := 2, owner := 0, kind := .pub .screen, media := av, stamp := 0, isOpen := true }, by decide,
-      rfl, rfl, by decide⟩
+  cases x <;> cases y <;>
+  · refine ⟨⟨by decide, by decide, ?_⟩, ?_⟩
+    · intro i
+      by_cases h : i = 0
+      · subst h; decide
+      · simp [run, earlySweepWitness, step, State.upd, beginCreate, createEndOk, findPend, recheckOk, sweepBody,
+          videoToClose, dropEntry, State.init, Sess.init, h, permittedPub, C09_code_oldstyle, av, objMedia, findObj]
+    · exact ⟨{ id := 2, owner := 0, kind := .pub .screen, media := av, stamp := 0, isOpen := true }, by decide,
+        rfl, rfl, by decide⟩
 
 /-- If the source still has the early return, this is a reachable state of the code's model. -/
 theorem C09_early_sweep_orphan_code (h : sweepReturnsEarly = true) :
     let st := run codeCfg State.init earlySweepWitness
     ∃ o ∈ st.objs, o.isOpen = true ∧ o.kind = .pub .screen ∧
       permitted (st.sess o.owner).perms o.kind o.media = false := by
-  have hc : codeCfg = { recheckPub := true, recheckSub := true, sweepEarly := true } := by
+  have hc : codeCfg = ({ recheckPub := true, recheckSub := true, sweepEarly := true, inCallExits := codeCfg.inCallExits,
+                         hubExits := codeCfg.hubExits } : Cfg) := by
     have h1 := C09_code_rechecks.1
     have h2 := C09_code_rechecks.2
     have h3 : codeCfg.sweepEarly = true := h
     cases hcfg : codeCfg with
-    | mk a b c =>
+    | mk a b c d e =>
       rw [hcfg] at h1 h2 h3
       simp only [] at h1 h2 h3
       rw [h1, h2, h3]
   rw [hc]
-  exact C09_early_sweep_orphan.2
+  exact (C09_early_sweep_orphan _ _).2
 
 /-! ## 7. Non-vacuity -/
 
